@@ -184,7 +184,7 @@ PROPS.update({
     "C13": _mach_prop(["the wrapped handler is represented by an observable marker action in the gate theorems",
                        "the SMS enrolment code is compared with the code in the session, unbound to the number it was sent to (same root cause as known finding F9; monitored under site sms-enrol-unbound)",
                        "handler-level frame (no other route changes 2FA settings) is checked by the differential stream's store diff and the monitor, not by a theorem"]),
-    "C17": _mach_prop(search=[{"name": "c18r", "n": 150, "seeds": 8}], assumptions=["hash pre-image resistance (a hash does not contain its input) is a cryptographic assumption; the harness' byte scan checks it empirically on every store change and log line",
+    "C17": _mach_prop(search=[{"name": "c18r", "n": 150, "seeds": 8}], extra_streams_quick=[{"name": "c17", "n": 300}], extra_streams_thorough=[{"name": "c17", "n": 5000, "seeds": 2}], assumptions=["hash pre-image resistance (a hash does not contain its input) is a cryptographic assumption; the harness' byte scan checks it empirically on every store change and log line",
                        "every logger call site with its argument expressions is pinned by the regenerated logCalls_* tables (T1); the model proves where mailed tokens go and that the repaired confirm log line carries no request data"]),
 })
 
